@@ -115,6 +115,7 @@ func runWs(cf wsConf, choices []int, free bool) wsRun {
 	if free {
 		s.Release()
 	}
+	defer attachFine(s, free)()
 	var mu sync.Mutex
 	res := wsRun{rets: make([][]string, len(cf.progs)), durs: make([][]time.Duration, len(cf.progs))}
 	ec := fakes.NewExtConn()
@@ -219,9 +220,10 @@ func renderWsRets(rets [][]string) string { return renderRets(rets) }
 // (trace acceptance) and applies the judges.
 func wsExplore(c *core.Ctx, sig string, cf wsConf, max int, judge func(run wsRun, replay map[string]interface{})) (int, bool) {
 	distinct := map[string]bool{}
-	n, ex := sched.Explore(max, func(choices []int) []int {
+	n, ex := explore(c, max, func(choices []int) []int {
 		c.InFlight(map[string]interface{}{"configuration": cf.name, "programs": cf.modelProgs(), "peer": cf.modelScript(), "close_frame_write_ok": cf.cfok, "choices": fmt.Sprint(choices)})
 		run := runWs(cf, choices, false)
+		choices = effective(choices, run.widths)
 		c.Eval()
 		tr := strings.Join(run.events, ";")
 		if tr == "" {
